@@ -33,6 +33,7 @@ fn campaigns(tier: Tier) -> Vec<Campaign> {
         blanks: vec![0],
         pipes: PIPES.to_vec(),
         filter: None,
+        choice_gen: None,
     };
     let mut v = vec![];
     v.push(mk("tiny-all-renderings", &t0, al(&UT_BINS_ALL, &UT_UNS_ALL, lit_rich()), vec![(1, 0), (1, 1), (1, 2), (2, 0), (2, 1)], 99));
